@@ -112,4 +112,28 @@ CHECKS = {
         abnormal_exit_is_violation=True,
         assumptions=HARNESS_TRUST,
     ),
+    "C11": dict(
+        level="exploration",
+        rule=("scenario = random database (8 types, sparse/dense indices incl. 65535, random static variations incl. packed formats) x tx buffer 249..2048 x 1-4 READs, each with 1-4 headers from "
+              "{class 0, all objects of a group with default or specific variation, 8/16-bit ranges incl. overlapping and end-of-range}; per fragment: updates applied while it awaits its confirm, then right confirm / wrong+right / timeout+late confirm / reconnect close / reconnect pre-empt / new request; "
+              "the concatenated static objects are compared header by header with the mirror snapshot taken when the request was sent; the C03 driver is run as a second part for the event side of series gating. "
+              "distinct = (fragments in series, how it ended, tx size, headers) tuples"),
+        runs=[dict(check="c11", timeout_s=900), dict(check="c03", timeout_s=900, scale=0.5)],
+        required=["objects_checked", "complete_series_ok", "multi_fragment_series_ok", "partial_series_prefix_ok", "updates_between_fragments", "wrong_confirms", "series_ended_by_timeout", "series_ended_by_reconnect", "series_ended_by_new_request"],
+        thorough_scale=25.0,
+        abnormal_exit_is_violation=True,
+        assumptions=HARNESS_TRUST,
+    ),
+    "C14": dict(
+        level="exploration",
+        rule=("scenario = unsolicited-enabled outstation (retry limit None/0/1/3, confirm timeout 50..1000 ms, retry delay 0..5000 ms) x 4-22 steps from {advance exactly T, T-1, 1 ms, D, random; right/wrong unsolicited confirm; update of a class 1/2/3 point; "
+              "ENABLE/DISABLE of random classes; READ; non-READ request; reconnect close/pre-empt}; rules U1-U8 are evaluated afterwards over the virtual-time-stamped log of every unsolicited and solicited fragment; "
+              "the C03 driver (unsolicited selection and U1 on data) runs as a second part. distinct = (retry limit, timeout, delay, number of unsolicited transmissions, null confirmed) tuples"),
+        runs=[dict(check="c14", timeout_s=900), dict(check="c03", timeout_s=900, scale=0.5)],
+        required=["U1_fresh_null_sequence_ok", "null_confirmed_scenarios", "U2_data_responses_checked", "U4_retry_ok", "U5_retry_delay_ok", "U7_non_read_immediate_ok", "U7_deferred_read_served_ok", "U7_read_idle_ok", "U8_prompt_unsolicited_ok",
+                  "new_series_after_confirm", "new_series_after_reconnect", "new_series_after_disable"],
+        thorough_scale=25.0,
+        abnormal_exit_is_violation=True,
+        assumptions=HARNESS_TRUST,
+    ),
 }
